@@ -23,11 +23,11 @@ type rewRef struct {
 	PoolIn   map[string]*big.Int            // cumulative coins received by the rewards pool
 	PoolOut  map[string]*big.Int            // cumulative coins paid out of the rewards pool
 	Unowned  map[string]*big.Rat            // rewards allocated to validators on which no started asset had stake (nobody is entitled)
-	Skew     map[string]bool                // positions whose validator had unsettled rewards while an asset total changed elsewhere
+	Skew     map[string]string               // positions whose validator had unsettled rewards while an asset total changed elsewhere
 }
 
 func newRewRef() *rewRef {
-	return &rewRef{E: map[string]map[string]*big.Rat{}, NAlloc: map[string]int{}, Pending: map[int]map[string]*big.Rat{}, PoolIn: map[string]*big.Int{}, PoolOut: map[string]*big.Int{}, Unowned: map[string]*big.Rat{}, Skew: map[string]bool{}}
+	return &rewRef{E: map[string]map[string]*big.Rat{}, NAlloc: map[string]int{}, Pending: map[int]map[string]*big.Rat{}, PoolIn: map[string]*big.Int{}, PoolOut: map[string]*big.Int{}, Unowned: map[string]*big.Rat{}, Skew: map[string]string{}}
 }
 
 func (r *rewRef) Clone() engine.Ref {
@@ -84,8 +84,8 @@ func (r *rewRef) Digest() []byte {
 		parts = append(parts, fmt.Sprintf("O%s=%s", k, v))
 	}
 	for k, v := range r.Skew {
-		if v {
-			parts = append(parts, "S"+k)
+		if v != "" {
+			parts = append(parts, "S"+k+v)
 		}
 	}
 	sort.Strings(parts)
@@ -287,7 +287,9 @@ func (r *rewRef) markSkew(prev, next *world.Snap) {
 		if len(dens) >= 2 && hit {
 			for _, p := range next.Pos {
 				if p.V == v {
-					r.Skew[p.Key()] = true
+					if r.Skew[p.Key()] == "" {
+						r.Skew[p.Key()] = "asset-split-uses-totals-at-settlement"
+					}
 				}
 			}
 		}
